@@ -307,6 +307,7 @@ class LoopContract:
         self.invariants = []   # Clause
         self.decreases = None  # Clause
         self.modifies = None
+        self.repeats = []      # Clause: must hold whenever the body goes round again (`repeat-only-if`)
 
 
 class FuncContract:
@@ -361,7 +362,7 @@ class LemmaDef:
 
 
 FUNC_CLAUSES = ('requires', 'ensures', 'assigns', 'nopanic', 'maypanic', 'devirt', 'globals', 'inline', 'trusted', 'pure', 'decreases',
-                'loop', 'invariant', 'use', 'tags', 'modifies', 'opaque', 'induction', 'trigger', 'terminates', 'callsite', 'recgroup')
+                'loop', 'invariant', 'use', 'tags', 'modifies', 'opaque', 'induction', 'trigger', 'terminates', 'callsite', 'recgroup', 'repeat-only-if')
 
 
 def strip_comment(s):
@@ -584,6 +585,12 @@ class ContractSet:
                 if cur_loop is None:
                     raise SpecError('invariant outside loop')
                 cur_loop.invariants.append(Clause(tags, self.inpkg(parse_expr(rest)), rest))
+            elif kw == 'repeat-only-if':
+                # repeat-only-if <expr>: an obligation on every back edge of the loop, with the locals of the body in scope:
+                # the body goes round again only when expr holds (e.g. a token is dropped only if its skip option is on)
+                if cur_loop is None:
+                    raise SpecError('repeat-only-if outside loop')
+                cur_loop.repeats.append(Clause(tags, self.inpkg(parse_expr(rest)), rest))
             elif kw == 'modifies':
                 cur_loop.modifies = [parse_assign_target(x) for x in split_top(rest)]
             elif kw == 'use':
